@@ -65,6 +65,27 @@ func nullProg(c *NullCase, present bool) (*ProgCase, bool) {
 			}
 		case -4: // optional as a list element type where the element is required
 			pc.E = m.Call("max", bind("xs", m.List(m.Maybe(m.Num)), false))
+		case -5:
+			// an optional where the payload is required, at the SECOND place where one composite
+			// sub-term (the same variable, hence the same type object) occurs in the expected type
+			pt := []*m.Type{m.List(m.Num), m.Map(m.Str, m.Num), m.Obj(m.Field{Name: "n", T: m.Num})}[c.Inst%3]
+			xs, xs2 := bind("xs", pt, false), m.V("xs")
+			ys := bind("ys", pt, false)
+			oxs := bind("oxs", pt, true)
+			first := m.ObjE([]string{"a", "b"}, []*m.Expr{xs, xs2})
+			second := m.ObjE([]string{"a", "b"}, []*m.Expr{ys, oxs})
+			switch c.Pos {
+			case 0:
+				pc.E = m.Member(m.Index(m.ListE(first, second), m.Lit("num", "1")), "b")
+			case 1:
+				pc.E = m.Member(m.Index(m.MapE(m.Lit("num", "1"), first, m.Lit("num", "2"), second), m.Lit("num", "2")), "b")
+			case 2:
+				pc.E = m.Member(m.Call("if", bind("c", m.Bool, false), first, second), "b")
+			case 3:
+				pc.E = m.Member(m.Call("get", m.ListE(first), m.Lit("num", "3"), second), "b")
+			default:
+				return nil, false
+			}
 		default:
 			return nil, false
 		}
@@ -184,7 +205,11 @@ func eachNullCase(yield func(*NullCase) bool) {
 		}
 	}
 	for _, c := range []*NullCase{{Sig: -1, Name: "member"}, {Sig: -2, Name: "list-subscript", Pos: 0}, {Sig: -2, Name: "list-index", Pos: 1},
-		{Sig: -3, Name: "map-subscript", Pos: 0}, {Sig: -3, Name: "map-key", Pos: 1}, {Sig: -4, Name: "list-of-optional-where-list-of-num"}} {
+		{Sig: -3, Name: "map-subscript", Pos: 0}, {Sig: -3, Name: "map-key", Pos: 1}, {Sig: -4, Name: "list-of-optional-where-list-of-num"},
+		{Sig: -5, Name: "optional-at-second-occurrence", Pos: 0, Inst: 0}, {Sig: -5, Name: "optional-at-second-occurrence", Pos: 0, Inst: 1}, {Sig: -5, Name: "optional-at-second-occurrence", Pos: 0, Inst: 2},
+		{Sig: -5, Name: "optional-at-second-occurrence", Pos: 1, Inst: 0}, {Sig: -5, Name: "optional-at-second-occurrence", Pos: 1, Inst: 2},
+		{Sig: -5, Name: "optional-at-second-occurrence", Pos: 2, Inst: 0}, {Sig: -5, Name: "optional-at-second-occurrence", Pos: 2, Inst: 1},
+		{Sig: -5, Name: "optional-at-second-occurrence", Pos: 3, Inst: 0}, {Sig: -5, Name: "optional-at-second-occurrence", Pos: 3, Inst: 2}} {
 		if !yield(c) {
 			return
 		}
@@ -420,7 +445,7 @@ func checkNullProg(c *NullProgCase) *Outcome {
 var c16prog = Register(&Prop[NullProgCase]{ID: "C16", Name: "programs-over-optionals", Gen: genNullProg, Check: checkNullProg})
 
 func TestC16(t *testing.T) {
-	R.Rule = "(a) enumerated: every built-in x every argument position given an optional of the required type (three instantiations of type variables; the parameter's variable optional in one or in all positions), member / subscript access on an optional, optional as index / key, list of optionals where a list of numbers is required - reference checker decides accept / reject, Compile must agree on three back ends, accepted ones are evaluated for present and absent payloads; (b) random well-typed programs over Go host data (structs with tagged nil / non-nil pointers, nil slices and nil maps) that consume optionals through get(optional, default) and move them through polymorphic positions, evaluated on four back ends against the reference; one case in three supplies required bindings as untagged non-nil pointers and then gives the same Callable a value of the same Go type with one of those pointers nil, which must be refused and not evaluated; (c) Go containers (slices, arrays, maps) of structs whose pointer / slice / map fields are nil or not per element: either rejected as inconsistent or converted to a value in which every component has the type its container declares (an absent part only at an optional-typed position); non-trivial = the program mentions an optional-typed name"
+	R.Rule = "(a) enumerated: every built-in x every argument position given an optional of the required type (three instantiations of type variables; the parameter's variable optional in one or in all positions), member / subscript access on an optional, optional as index / key, list of optionals where a list of numbers is required, an optional at the second place where one variable's composite type occurs in the expected type of a list / map / conditional / default - reference checker decides accept / reject, Compile must agree on three back ends, accepted ones are evaluated for present and absent payloads; (b) random well-typed programs over Go host data (structs with tagged nil / non-nil pointers, nil slices and nil maps) that consume optionals through get(optional, default) and move them through polymorphic positions, evaluated on four back ends against the reference; one case in three supplies required bindings as untagged non-nil pointers and then gives the same Callable a value of the same Go type with one of those pointers nil, which must be refused and not evaluated; (c) Go containers (slices, arrays, maps) of structs whose pointer / slice / map fields are nil or not per element: either rejected as inconsistent or converted to a value in which every component has the type its container declares (an absent part only at an optional-typed position); non-trivial = the program mentions an optional-typed name"
 	R.Assume = []string{"ref.Check / ref.Eval"}
 	reportKnown(t, "C16")
 	runRegress(t, "C16")
